@@ -56,12 +56,12 @@ theorem closeRxPipe_post (p : Int) (s : DrvState) (h : Inv s) (hp : pipeOk p) :
   · exec_simp [hno, h0, readVal_enRxAddr]
     subst h0
     rw [show andNot s.cfg.enRxAddr (1 <<< (0 : Int).toNat) = setBit s.cfg.enRxAddr (0 : Int).toNat false from hb.1,
-      exec_regWrite_nat _ _ _ (by omega) (by decide)]
+      exec_regWrite_nat3 _ _ _ (by omega) (by decide)]
     refine Post.of_reach (by reach h.wf) h.wf ?_ rfl ?_
     · rw [Radio.w_enRxAddr _ _ hb.2.2.1]; rfl
     · exact { h.cached with openPipes := rfl }
   · exec_simp [hno, h0, readVal_enRxAddr, hb.1]
-    rw [exec_regWrite_nat _ _ _ (by omega) (by decide)]
+    rw [exec_regWrite_nat3 _ _ _ (by omega) (by decide)]
     refine Post.of_reach (by reach h.wf) h.wf ?_ rfl ?_
     · rw [Radio.w_enRxAddr _ _ hb.2.2.1]; rfl
     · exact { h.cached with openPipes := rfl }
@@ -99,7 +99,7 @@ theorem openRxPipe0_post (addr : Bytes) (s : DrvState) (h : Inv s) (ha : addr.le
     h.cached.pipes0, h.ok.a0.1, hgt, exec_regWriteBytes, Bool.false_eq_true, readVal_after_addr_write, hne,
     Nat.reduceAdd, Nat.reduceLeDiff]
   simp only [readVal_enRxAddr, hb.2.1]
-  rw [exec_regWrite_nat _ _ _ (by omega) (by decide)]
+  rw [exec_regWrite_nat3 _ _ _ (by omega) (by decide)]
   refine Post.of_reach (by reach h.wf) h.wf ?_ rfl ?_
   · rw [Radio.w_a0 _ _ ha, Radio.w_enRxAddr _ _ hb.2.2.2]; rfl
   · exact { h.cached with openPipes := rfl, pipes0 := rfl }
@@ -115,7 +115,7 @@ theorem openRxPipe1_post (addr : Bytes) (s : DrvState) (h : Inv s) (ha : addr.le
     h.cached.pipes1, h.ok.a1.1, hgt, exec_regWriteBytes, Bool.false_eq_true, readVal_after_addr_write, hne,
     Nat.reduceAdd, Nat.reduceLeDiff]
   simp only [readVal_enRxAddr, hb.2.1]
-  rw [exec_regWrite_nat _ _ _ (by omega) (by decide)]
+  rw [exec_regWrite_nat3 _ _ _ (by omega) (by decide)]
   refine Post.of_reach (by reach h.wf) h.wf ?_ rfl ?_
   · rw [Radio.w_a1 _ _ ha, Radio.w_enRxAddr _ _ hb.2.2.2]; rfl
   · exact { h.cached with openPipes := rfl, pipes1 := rfl }
@@ -138,32 +138,32 @@ theorem openRxPipeN_post (p : Int) (addr : Bytes) (s : DrvState) (h : Inv s) (hp
   all_goals
     exec_simp [h.wf, isEmpty_false hne, Int.reduceToNat, Int.reduceLE, Bool.false_eq_true, Nat.reduceAdd,
       Nat.reduceSub]
-    rw [exec_regWrite_nat _ _ _ hh (by decide)]
+    rw [exec_regWrite_nat3 _ _ _ hh (by decide)]
     exec_simp [h.wf, readVal_after_addr_write, Nat.reduceLeDiff, reduceCtorEq]
     simp only [readVal_enRxAddr]
   · have hb := bits_pipe2 _ h.ok.enRxAddr 2 (by decide)
-    rw [hb.2.1, exec_regWrite_nat _ _ _ (by omega) (by decide)]
+    rw [hb.2.1, exec_regWrite_nat3 _ _ _ (by omega) (by decide)]
     refine Post.of_reach (by reach h.wf) h.wf ?_ rfl ?_
     · rw [Radio.w_aN _ 0 _ (by decide), Radio.w_enRxAddr _ _ hb.2.2.2]; rfl
     · refine { h.cached with openPipes := rfl, pipesN := ?_ }
       show s.d.pipesN.set 0 (addr.headD 0) = _
       rw [h.cached.pipesN]
   · have hb := bits_pipe2 _ h.ok.enRxAddr 3 (by decide)
-    rw [hb.2.1, exec_regWrite_nat _ _ _ (by omega) (by decide)]
+    rw [hb.2.1, exec_regWrite_nat3 _ _ _ (by omega) (by decide)]
     refine Post.of_reach (by reach h.wf) h.wf ?_ rfl ?_
     · rw [Radio.w_aN _ 1 _ (by decide), Radio.w_enRxAddr _ _ hb.2.2.2]; rfl
     · refine { h.cached with openPipes := rfl, pipesN := ?_ }
       show s.d.pipesN.set 1 (addr.headD 0) = _
       rw [h.cached.pipesN]
   · have hb := bits_pipe2 _ h.ok.enRxAddr 4 (by decide)
-    rw [hb.2.1, exec_regWrite_nat _ _ _ (by omega) (by decide)]
+    rw [hb.2.1, exec_regWrite_nat3 _ _ _ (by omega) (by decide)]
     refine Post.of_reach (by reach h.wf) h.wf ?_ rfl ?_
     · rw [Radio.w_aN _ 2 _ (by decide), Radio.w_enRxAddr _ _ hb.2.2.2]; rfl
     · refine { h.cached with openPipes := rfl, pipesN := ?_ }
       show s.d.pipesN.set 2 (addr.headD 0) = _
       rw [h.cached.pipesN]
   · have hb := bits_pipe2 _ h.ok.enRxAddr 5 (by decide)
-    rw [hb.2.1, exec_regWrite_nat _ _ _ (by omega) (by decide)]
+    rw [hb.2.1, exec_regWrite_nat3 _ _ _ (by omega) (by decide)]
     refine Post.of_reach (by reach h.wf) h.wf ?_ rfl ?_
     · rw [Radio.w_aN _ 3 _ (by decide), Radio.w_enRxAddr _ _ hb.2.2.2]; rfl
     · refine { h.cached with openPipes := rfl, pipesN := ?_ }
@@ -212,7 +212,7 @@ theorem openTxPipe_post (addr : Bytes) (s : DrvState) (h : Inv s) (ha : addr.len
     · have hcfg0 : bitOf s.cfg.config 0 = false := hC.2.1.1 hopen.1
       exec_simp [h.cached.aa, hAA', overwritePrefix, getPipes, setPipes, h.cached.pipes0, h.ok.a0.1, hgt,
         exec_regWriteBytes, h.cached.config, h.cached.openPipes, hopen.1, hopen.2, hO.2.2.1]
-      rw [exec_regWrite_nat _ _ _ (by have := (bits_pipe2 _ h.ok.enRxAddr 0 (by decide)).2.2.2; omega) (by decide)]
+      rw [exec_regWrite_nat3 _ _ _ (by have := (bits_pipe2 _ h.ok.enRxAddr 0 (by decide)).2.2.2; omega) (by decide)]
       exec_simp [overwritePrefix, h.cached.txAddress, h.ok.tx.1, hgt, exec_regWriteBytes]
       refine Post.of_reach (by reach h.wf) h.wf ?_ rfl ?_
       · rw [Radio.w_a0 _ _ ha, Radio.w_enRxAddr _ _ (bits_pipe2 _ h.ok.enRxAddr 0 (by decide)).2.2.2,
